@@ -7,7 +7,7 @@ import ast
 
 from ..cfg import CFG
 from ..core import AnalysisError, const_value
-from ..defuse import DefUse, Terms, show
+from ..defuse import DefUse, Terms, show, walk_term
 from ..tutil import lin
 
 EXPLANATION = (
@@ -264,6 +264,26 @@ def _to_valid(ctx, f):
                   "the converter gets the header's column count and "
                   "protein index and the caller's separators",
                   f"{got}", node=c)
+    # line terminators are removed by stripping, never by position
+    for c in calls:
+        b = prog.bind(conv, c)
+        lt = T.of(b["line"]) if "line" in b else None
+        ok = lt is not None and lt[0] == "mcall" and lt[2] in (
+            "strip", "rstrip") and (not lt[3] or all(
+                a[0] == "const" and isinstance(a[1], str)
+                and set(a[1]) <= set("\r\n \t") for a in lt[3]))
+        ctx.check(ok, "C19b-line-terminator", f,
+                  "the line given to the converter has its terminator "
+                  "removed with strip()/rstrip()",
+                  f"the line is prepared as {show(lt, 80) if lt else None}:"
+                  " removing the terminator by position cuts a character "
+                  "off a last line that has no trailing newline", node=c)
+    ht = T.of(wh.args[0])
+    okh = any(x[0] == "mcall" and x[2] in ("strip", "rstrip")
+              for x in walk_term(ht))
+    ctx.check(okh, "C19b-line-terminator", f,
+              "the header's terminator is removed with strip()/rstrip()",
+              f"header is written as {show(ht, 80)}", node=wh)
     # what is written is the converted line + newline
     for w in (w2, wl):
         t = T.of(w.args[0])
